@@ -1036,6 +1036,7 @@ func (c *compiler) compileSwitchStatement(v *ast.SwitchStatement, needResult boo
 	}
 
 	var enter *enterBlock
+	var enterPc int
 	var db *binding
 	if scopeDeclared {
 		c.block = &block{
@@ -1044,6 +1045,7 @@ func (c *compiler) compileSwitchStatement(v *ast.SwitchStatement, needResult boo
 			needResult: needResult,
 		}
 		enter = &enterBlock{}
+		enterPc = len(c.p.code)
 		c.emit(enter)
 		// create anonymous variable for the discriminant
 		bindings := c.scope.bindings
@@ -1116,7 +1118,16 @@ func (c *compiler) compileSwitchStatement(v *ast.SwitchStatement, needResult boo
 	}
 	if enter != nil {
 		c.leaveScopeBlock(enter)
-		enter.stackSize--
+		if c.scope.dynLookup || db.inStash {
+			// the discriminant lives in the stash: move it there from the stack (as for a catch parameter)
+			c.p.code[enterPc] = &enterCatchBlock{
+				names:     enter.names,
+				stashSize: enter.stashSize,
+				stackSize: enter.stackSize,
+			}
+		} else {
+			enter.stackSize--
+		}
 		c.popScope()
 	}
 	c.leaveBlock()
